@@ -407,6 +407,10 @@ func (l *layout) make(id string, n int, zero bool) []reflect.Value {
 			}
 			return s
 		}
+		if l.fn.Enc.NilRes {
+			// a nil pointer is a value like any other
+			return reflect.Zero(univ.Type(ct)).Convert(typ)
+		}
 		return univ.New(ct, univ.Prov{F: id, N: n, I: idx + 1}).Convert(typ)
 	}
 	var outs []reflect.Value
